@@ -12,13 +12,16 @@
 (***************************************************************************)
 EXTENDS Naturals, Sequences, FiniteSets
 
-\* A colour is a triple <<r, g, b>>.  0-based indices as in the code.
+\* A colour is a triple <<r, g, b>> or, when it carries a name (palette files, Color::name), a 4-tuple <<r, g, b, n>>.
+\* The NAME IS NOT PART OF A COLOUR'S IDENTITY: cells store indices, and a colour that is present must resolve to its index
+\* whatever name either side carries.  0-based indices as in the code.
+Rgb(c) == <<c[1], c[2], c[3]>>
 Get(colors, i) == IF i < Len(colors) THEN colors[i + 1] ELSE <<0, 0, 0>>   \* Palette::get_rgb: out of range = black
 
 RECURSIVE FirstIndex(_, _, _)
 FirstIndex(colors, c, i) ==            \* smallest 0-based index >= i holding c, or Len(colors)
   IF i >= Len(colors) THEN Len(colors)
-  ELSE IF colors[i + 1] = c THEN i ELSE FirstIndex(colors, c, i + 1)
+  ELSE IF Rgb(colors[i + 1]) = Rgb(c) THEN i ELSE FirstIndex(colors, c, i + 1)
 
 \* Palette::insert_color: linear search, then push
 Insert(colors, c) ==
@@ -50,10 +53,10 @@ Clear(colors) == [colors |-> <<>>, ret |-> 0]
 \* The property (C16, first half), as relations between the palette before
 \* an insert, the inserted colour, the returned index and the palette after.
 \* These are what the trace module evaluates on RECORDED values.
-InsertResolves(before, c, ret, after) == ret < Len(after) /\ after[ret + 1] = c
+InsertResolves(before, c, ret, after) == ret < Len(after) /\ Rgb(after[ret + 1]) = Rgb(c)
 IndexStable(before, after) == Len(after) >= Len(before) /\ \A i \in 1..Len(before) : after[i] = before[i]
 InsertIdempotent(before, c, ret, after) ==
-  (\E i \in 1..Len(before) : before[i] = c) => (Len(after) = Len(before) /\ ret < Len(before) /\ before[ret + 1] = c)
+  (\E i \in 1..Len(before) : Rgb(before[i]) = Rgb(c)) => (Len(after) = Len(before) /\ ret < Len(before) /\ Rgb(before[ret + 1]) = Rgb(c))
 InsertOk(before, c, ret, after) ==
   InsertResolves(before, c, ret, after) /\ IndexStable(before, after) /\ InsertIdempotent(before, c, ret, after)
 
